@@ -44,6 +44,7 @@ type harness struct {
 	sigs  map[string]int
 	only  map[string]bool
 
+	w          *world                    // populated state (world.go)
 	anteSrc    anteSource                // decorator order read from ante/handler_options.go of the tree under check
 	forceUint  map[string]*big.Int       // precompile stage: forced uint256 arguments (by ABI input name)
 	forceAddr  map[string]common.Address // precompile stage: forced address arguments
@@ -91,6 +92,7 @@ func main() {
 		h.rep.Count("ante-chain:source-not-readable")
 	}
 
+	h.buildWorld()
 	if os.Getenv("VERIF_MODE") == "replay" && os.Getenv("VERIF_REPLAY") != "" {
 		h.replayFile(os.Getenv("VERIF_REPLAY"))
 		h.rep.Write()
